@@ -313,6 +313,7 @@ func (f *follower) startWorkers() {
 // deliver hands a primary block to the follower: execute or sync, then register
 // it as the notarized block of its round.
 func (f *follower) deliver(fb *fblk) bool {
+	defer timeSect("deliver")()
 	b := fb.b
 	rp := f.rp
 	var nb *block.Block
@@ -385,6 +386,7 @@ func (f *follower) deliver(fb *fblk) bool {
 // finalizeRounds hands the rounds up to `upto` to the shipped FinalizeRound, one
 // at a time, letting the workers run to quiescence after each.
 func (f *follower) finalizeRounds(upto int64) {
+	defer timeSect("finalizeRounds")()
 	c := f.rp.C
 	for ; f.nextRound <= upto && !f.dead; f.nextRound++ {
 		r := c.GetRound(f.nextRound)
@@ -420,6 +422,7 @@ func (f *follower) afterDisk(where string) {
 // observe notices prunes that happened since the last look (dead-node records
 // disappeared) and runs the oracle.
 func (f *follower) observe(defBefore int) {
+	defer timeSect("observe")()
 	if f.lost {
 		return
 	}
@@ -475,6 +478,7 @@ func bucketN(n int) string {
 // check is the oracle: every retained block at or above the prune round reads
 // back completely from the persistent node DB alone and equals the model.
 func (f *follower) check(ndb util.NodeDB, when string) {
+	defer timeSect("check")()
 	suffix := ""
 	if f.afterCrash {
 		suffix = "/after-crash"
@@ -506,6 +510,7 @@ func (f *follower) check(ndb util.NodeDB, when string) {
 
 // restart rebuilds the follower from its disk alone.
 func (f *follower) restart(why string) {
+	defer timeSect("restart(incl)")()
 	if f.lost {
 		return
 	}
@@ -583,6 +588,7 @@ func (f *follower) restart(why string) {
 
 // tick lets the bubble clock run so that the shipped PruneClientStateWorker fires.
 func (f *follower) tick(secs int64) {
+	defer timeSect("tick(incl)")()
 	if f.lost || f.dead {
 		time.Sleep(time.Duration(secs) * time.Second)
 		return
@@ -677,7 +683,10 @@ func dbgPanic() {
 func (f *follower) AfterBlock(w *ledger.World, bc *ledger.BlockCtx) {
 	defer dbgPanic()
 	b := bc.B
+	defer timeSect("AfterBlock(incl)")()
+	stop := timeSect("model")
 	want, err := ledger.Leaves(bc.State.GetNodeDB(), b.ClientStateHash)
+	stop()
 	if err != nil {
 		panic(fmt.Sprintf("primary state of block %d unreadable: %v", b.Round, err))
 	}
